@@ -340,6 +340,11 @@ func (dec *xmlDecoder) decodeXML(root *xmlNode) error {
 		started = true
 	}
 
+	if elem.parent != nil {
+		// the input ends inside an element: what it holds was never attached to the document
+		return fmt.Errorf("XML syntax error: unexpected end of input, element <%v> is not closed", elem.label)
+	}
+
 	return nil
 }
 
